@@ -413,12 +413,23 @@ impl Storage {
         let key = Key::Meta(LAST_STATE_KEY).into_vec();
         let mut value = total_difficulty.to_le_bytes().to_vec();
         value.extend(tip_header.as_slice());
-        #[cfg(feature = "verif")]
-        crate::verif_hooks::write_point("put:last_state");
-        self.db
-            .put(key, &value)
-            .expect("db put last state should be ok");
-        self.update_last_n_headers(last_n_headers);
+        // The last state and the last n headers describe the same chain, they have to be written
+        // atomically: if only the last state is updated, the stale last n headers of the previous
+        // (maybe forked) chain will be used to check the next proof.
+        let mut last_n_headers_value: Vec<u8> = Vec::with_capacity(last_n_headers.len() * 40);
+        for header in last_n_headers {
+            last_n_headers_value.extend(header.number().to_le_bytes());
+            last_n_headers_value.extend(header.hash().as_slice());
+        }
+        let mut batch = self.batch();
+        batch.put(key, &value).expect("batch put should be ok");
+        batch
+            .put(
+                Key::Meta(LAST_N_HEADERS_KEY).into_vec(),
+                last_n_headers_value,
+            )
+            .expect("batch put should be ok");
+        batch.commit().expect("db put last state should be ok");
     }
 
     pub fn get_last_state(&self) -> (U256, Header) {
@@ -436,19 +447,6 @@ impl Storage {
             .expect("tip header should be inited")
     }
 
-    pub fn update_last_n_headers(&self, headers: &[HeaderView]) {
-        let key = Key::Meta(LAST_N_HEADERS_KEY).into_vec();
-        let mut value: Vec<u8> = Vec::with_capacity(headers.len() * 40);
-        for header in headers {
-            value.extend(header.number().to_le_bytes());
-            value.extend(header.hash().as_slice());
-        }
-        #[cfg(feature = "verif")]
-        crate::verif_hooks::write_point("put:last_n_headers");
-        self.db
-            .put(key, &value)
-            .expect("db put last n headers should be ok");
-    }
     pub fn get_last_n_headers(&self) -> Vec<(u64, Byte32)> {
         let key = Key::Meta(LAST_N_HEADERS_KEY).into_vec();
         self.db
